@@ -14,21 +14,11 @@
 (* (Bijective, Inverse) and emits, per text, the table the harness compares  *)
 (* Position / Span / Pair utilities against.                                  *)
 (***************************************************************************)
-EXTENDS Integers, Sequences, FiniteSets, TLC, Json
+EXTENDS LineColDefs, TLC, Json
 
-CONSTANTS MaxLen, Alphabet, NL
+CONSTANTS MaxLen, Alphabet
 
 Texts == UNION {[1..n -> Alphabet] : n \in 0..MaxLen}
-
-BreaksBefore(t, p) == Cardinality({i \in 1..p : t[i] = NL})
-LineStart(t, p) == LET B == {i \in 1..p : t[i] = NL}
-                   IN IF B = {} THEN 0 ELSE CHOOSE i \in B : \A j \in B : j <= i
-LineEnd(t, p)   == LET B == {i \in (p + 1)..Len(t) : t[i] = NL}
-                   IN IF B = {} THEN Len(t) ELSE (CHOOSE i \in B : \A j \in B : i <= j) - 1
-LineCol(t, p)   == <<1 + BreaksBefore(t, p), 1 + p - LineStart(t, p)>>
-
-\* the inverse: the offset of (line, column)
-Offset(t, l, c) == CHOOSE p \in 0..Len(t) : LineCol(t, p) = <<l, c>>
 
 VARIABLES text, phase
 vars == <<text, phase>>
